@@ -109,6 +109,9 @@ MUTANTS = [
   ("c12-progress-check-only-for-single-item", ["C12", "C10"], [("src/semantic/semantic_state.rs",
      "            if to_resolve == self.type_registry.unresolved()\n                && registered",
      "            if to_resolve.len() < 2\n                && to_resolve == self.type_registry.unresolved()\n                && registered")]),
+  ("c12-parse-error-column-zero-based", ["C12"], [("src/semantic/semantic_state.rs",
+     "                    line,\n                    column + 1\n",
+     "                    line,\n                    column\n")]),
   ("c14-root-module-skip-removed", ["C14"], [("src/backends/rust.rs",
      "    if key.is_empty() {\n        return Ok(());\n    }\n", "")]),
   ("c14-prologue-epilogue-swapped", ["C14"], [("src/backends/rust.rs",
